@@ -176,7 +176,7 @@ func generateRegexMatch(w io.Writer, lexerName, name, pattern string) error {
 
 	// Fast-path a single literal.
 	if len(flattened) == 1 && re.Op == syntax.OpLiteral {
-		n := utf8.RuneCountInString(string(re.Rune))
+		n := len(string(re.Rune)) // length in bytes, as the generated code indexes bytes
 		if re.Flags&syntax.FoldCase != 0 {
 			fmt.Fprintf(w, "if p+%d <= len(s) && strings.EqualFold(s[p:p+%d], %q) {\n", n, n, string(re.Rune))
 		} else {
@@ -211,7 +211,7 @@ func generateRegexMatch(w io.Writer, lexerName, name, pattern string) error {
 			fmt.Fprintf(w, "return -1\n")
 
 		case syntax.OpLiteral: // matches Runes sequence
-			n := utf8.RuneCountInString(string(re.Rune))
+			n := len(string(re.Rune)) // length in bytes, as the generated code indexes bytes
 			if re.Flags&syntax.FoldCase != 0 {
 				if n == 1 && !unicode.IsLetter(re.Rune[0]) {
 					fmt.Fprintf(w, "if p < len(s) && s[p] == %q { return p+1 }\n", re.Rune[0])
